@@ -301,6 +301,116 @@ let cmd_myo args =
      | Err es -> emit ("err " ^ Stdlib.String.concat "," (List.map (fun e -> ostr (ekind_name e.ek)) es)))
   | _ -> failwith "myo: bad arguments"
 
+(* ---- S-expression printers (same shapes as the hooks print) ------------------------------ *)
+let rec sexp_of_expr (e : expr) : Stdlib.String.t =
+  match e with
+  | EConst v -> Printf.sprintf "(c 0x%s %s)" (hex_of_n v.bits) (width_str v.wd)
+  | EWire n -> "(w " ^ ostr n ^ ")"
+  | EBin (op, l, r) -> Printf.sprintf "(b %s %s %s)" (binop_name op) (sexp_of_expr l) (sexp_of_expr r)
+  | EUn (op, e1) -> Printf.sprintf "(u %s %s)" (unop_name op) (sexp_of_expr e1)
+  | EMux a -> "(m" ^ sexp_of_arms a ^ ")"
+  | ESlice (e1, lo, hi) -> Printf.sprintf "(s %s %d %d)" (sexp_of_expr e1) (int_of_n lo) (int_of_n hi)
+  | ECat (l, r) -> Printf.sprintf "(cat %s %s)" (sexp_of_expr l) (sexp_of_expr r)
+  | EIn (e1, items) -> "(in " ^ sexp_of_expr e1 ^ sexp_of_items items ^ ")"
+and sexp_of_arms = function
+  | ANil -> ""
+  | ACons (c, v, rest) -> Printf.sprintf " (arm %s %s)" (sexp_of_expr c) (sexp_of_expr v) ^ sexp_of_arms rest
+and sexp_of_items = function
+  | XNil -> ""
+  | XCons (e, rest) -> " " ^ sexp_of_expr e ^ sexp_of_items rest
+and binop_name = function
+  | Add -> "Add" | Sub -> "Sub" | Mul -> "Mul" | Div -> "Div" | Or -> "Or" | Xor -> "Xor" | And -> "And"
+  | Equal -> "Equal" | NotEqual -> "NotEqual" | LessEqual -> "LessEqual" | GreaterEqual -> "GreaterEqual"
+  | Less -> "Less" | Greater -> "Greater" | LogicalAnd -> "LogicalAnd" | LogicalOr -> "LogicalOr"
+  | LeftShift -> "LeftShift" | RightShift -> "RightShift"
+and unop_name = function Plus -> "Plus" | Negate -> "Negate" | Complement -> "Complement" | Not -> "Not"
+
+let opt_name = function Some s -> ostr s | None -> "-"
+
+let sexp_of_action (a : action) : Stdlib.String.t =
+  match a with
+  | AAssign (n, e, w) -> Printf.sprintf "(assign %s %s %s)" (ostr n) (width_str w) (sexp_of_expr e)
+  | AReadReg (n, o) -> Printf.sprintf "(rdreg %s %s)" (ostr n) (ostr o)
+  | AReadMemory (en, a, o, nb, isi) ->
+    Printf.sprintf "(rdmem %s %s %s %d %s)" (opt_name en) (ostr a) (ostr o) (int_of_n nb) (b01 isi)
+  | AWriteReg (n, i) -> Printf.sprintf "(wrreg %s %s)" (ostr n) (ostr i)
+  | AWriteMemory (en, a, i, nb) -> Printf.sprintf "(wrmem %s %s %s %d)" (opt_name en) (ostr a) (ostr i) (int_of_n nb)
+  | ASetStatus w -> Printf.sprintf "(status %s)" (ostr w)
+
+let wtype_name = function
+  | TConstant -> "Constant" | TBuiltinInput -> "BuiltinInput" | TBuiltinOutput -> "BuiltinOutput"
+  | TRegisterBankInput -> "RegisterBankInput" | TRegisterBankOutput -> "RegisterBankOutput"
+  | TRegisterBankSpecial -> "RegisterBankSpecial" | TNormal -> "Normal"
+
+let sexp_of_program (p : program) : Stdlib.String.t =
+  let consts = List.sort compare (List.map (fun (n, v) -> Printf.sprintf "(%s 0x%s %s)" (ostr n) (hex_of_n v.bits) (width_str v.wd)) p.p_consts) in
+  let bank b =
+    let sigs = List.map (fun ((i, o), w) ->
+        let d = match lookup b.b_defaults o with Some d -> d | None -> { bits = N0; wd = Unl } in
+        Printf.sprintf "(sig %s %s %s 0x%s %s)" (ostr i) (ostr o) (width_str w) (hex_of_n d.bits) (width_str d.wd)) b.b_signals in
+    Printf.sprintf "(bank %s %s %s %s (ndefaults %d))" (ostr b.b_label) (ostr b.b_stall) (ostr b.b_bubble)
+      (Stdlib.String.concat " " sigs) (List.length b.b_defaults) in
+  Printf.sprintf "(prog (consts %s) (banks %s) (actions %s) (defaulted %s) (types %s))"
+    (Stdlib.String.concat " " consts)
+    (Stdlib.String.concat " " (List.map bank p.p_banks))
+    (Stdlib.String.concat " " (List.map sexp_of_action p.p_actions))
+    (Stdlib.String.concat " " (List.sort compare (List.map ostr p.p_defaulted)))
+    (Stdlib.String.concat " " (List.sort compare (List.map (fun (n, t) -> Printf.sprintf "(%s %s)" (ostr n) (wtype_name t)) p.p_types)))
+
+(* ---- statements -------------------------------------------------------------------------- *)
+let stmt_of (s : sexp) : stmt =
+  match s with
+  | L (Atom "const" :: decls) ->
+    SConst (List.map (function L [Atom "def"; Atom n; e] -> (cstr n, expr_of e) | _ -> failwith "const decl") decls)
+  | L (Atom "wire" :: decls) ->
+    SWire (List.map (function L [Atom "decl"; Atom n; Atom w] -> (cstr n, width_of_atom w) | _ -> failwith "wire decl") decls)
+  | L (Atom "assign" :: sets) ->
+    SAssign (List.map (function
+        | L [Atom "set"; L names; e] -> (List.map (function Atom a -> cstr a | _ -> failwith "name") names, expr_of e)
+        | _ -> failwith "set") sets)
+  | L (Atom "register" :: Atom name :: regs) ->
+    SBank (cstr name, List.map (function
+        | L [Atom "reg"; Atom n; Atom w; e] -> ((cstr n, width_of_atom w), expr_of e)
+        | _ -> failwith "reg") regs)
+  | _ -> failwith "stmt_of"
+
+(* mbuild <features> <hex of "(stmt stmt ...)"> *)
+let cmd_mbuild args =
+  match args with
+  | [feat; h] ->
+    let stmts = match parse_sexp (hex_decode h) with L l -> List.map stmt_of l | _ -> failwith "stmts" in
+    (match build_program (features_of feat) gen_fixed ascii_lower ascii_upper stmts with
+     | Ok p ->
+       emit ("accept " ^ sexp_of_program p);
+       emit ("valid_schedule " ^ b01 (valid_schedule (known0 p) p.p_actions))
+     | Err es ->
+       emit ("reject " ^ Stdlib.String.concat " ; "
+               (List.sort compare (List.map (fun e -> ostr (ekind_name e.ek) ^ "|" ^ Stdlib.String.concat "," (List.map ostr e.enames)) es))))
+  | _ -> failwith "mbuild: bad arguments"
+
+(* mvalid <compiledhex>: the valid_schedule predicate on a compiled program (the implementation's) *)
+let cmd_mvalid args =
+  match args with
+  | [h] ->
+    let p = program_of (parse_sexp (hex_decode h)) in
+    emit ("valid_schedule " ^ b01 (valid_schedule (known0 p) p.p_actions))
+  | _ -> failwith "mvalid: bad arguments"
+
+(* region <prehex> <userhex> <start> <end> *)
+let string_of_bytes (l : n list) : Stdlib.String.t =
+  let b = Buffer.create 64 in
+  List.iter (fun x -> Buffer.add_char b (Char.chr (int_of_n x))) l;
+  Buffer.contents b
+
+let cmd_mregion args =
+  match args with
+  | [pre; user; s; e] ->
+    let fc = new_from_data (bytes_of (hex_decode pre)) (bytes_of (hex_decode user)) (bytes_of "F") in
+    (match show_region fc (nat_of_int (int_of_string s)) (nat_of_int (int_of_string e)) with
+     | Some t -> emit ("region " ^ hex_encode (string_of_bytes t))
+     | None -> emit "PANIC")
+  | _ -> failwith "region: bad arguments"
+
 let dispatch cmd args =
   match cmd with
   | "dis" -> cmd_dis args
@@ -310,6 +420,9 @@ let dispatch cmd args =
   | "mem" -> cmd_mem args
   | "mgraph" -> cmd_mgraph args
   | "yo" -> cmd_myo args
+  | "mbuild" -> cmd_mbuild args
+  | "region" -> cmd_mregion args
+  | "mvalid" -> cmd_mvalid args
   | _ -> emit ("unknown command " ^ cmd)
 
 let () =
